@@ -213,7 +213,7 @@ def finish(prop, tier, seed, level, result, rule, assumptions, t0, replay_fn, kn
             path = write_replay(prop, v['replay'])
             confirmed.append((v, path))
         else:
-            result.infra.append('unconfirmed violation (%d/3 replays failed): %s' % (ok, v.get('summary')))
+            result.infra.append('unconfirmed violation (%d/3 replays failed): %s | stderr: %s' % (ok, v.get('summary'), str(v['replay'].get('stderr', ''))[-600:]))
     wall = time.time() - t0
     if result.infra:
         result.extra['infrastructure_notes'] = result.infra[:10]
